@@ -107,6 +107,12 @@ CLAIMS = {
         "note": "The fault index k is enumerated completely per history; the histories themselves are sampled. Faults are io::Error values returned by the spy terminal; partial writes are not modelled.",
         "technique": "runtime monitoring with fault injection at the TermLike boundary, exhaustive in the fault index",
     },
+    "C17": {
+        "text": "Exploration by twin comparison: every call on a wrapped scripted source/sink is mirrored on an identical bare twin; items, bytes, return values and error kinds must agree and position() must move by exactly what the call transferred (seek: equal the returned offset). Families: Read (read, read_vectored, read_exact, read_to_end; short reads, Interrupted, hard errors, zero-length, EOF), BufRead (fill_buf / partial consume / read_line / read interleaved), Write (write, write_vectored, write_all, flush), Seek (three modes, rewind, stream_position), Iterator/DoubleEnded/ExactSize (size_hint validity, every ProgressFinish on exhaustion), tokio AsyncRead/AsyncBufRead/AsyncWrite/AsyncSeek and futures Stream polled by hand with scripted Pending (no runtime), rayon pipelines (for_each, map+collect, zip, enumerate, rev, chunks, with_min_len, with_max_len, unindexed filter) on pools of 1-16 threads with 0-20000 items incl. a probe that the bar is not finished while items are still being processed.",
+        "design_ref": "DESIGN.md §4 C17",
+        "note": "Separate binary vh-adapt (indicatif features rayon, tokio, futures). Erroring calls of the all-or-nothing std methods (read_exact, read_to_end) are exempt from the byte law. Rayon interleavings are whatever the pool produces.",
+        "technique": "runtime monitoring: twin (differential) comparison at the adaptor boundary + conservation of the count",
+    },
 }
 
 ALL = [f"C{n:02d}" for n in range(1, 20)]
